@@ -305,6 +305,9 @@ def _rt_class(c):
     return None
 
 
+# 'outside_domain' is not a finding: command lists that are not well-formed (e.g. an opcode in the push range given as
+# an opcode) are outside the domain the property quantifies over; the class only filters them out of the verdict
+DOMAIN_CLASSES = ('outside_domain',)
 KNOWN_CLASSES = {
     'whole_script_heuristic': lambda c, io, mo: _rt_class(c) == 'whole_script_heuristic',
     'subscript_reparse': lambda c, io, mo: _rt_class(c) == 'subscript_reparse',
